@@ -23,7 +23,7 @@ BOUNDS = {
     "outside": "compiling and running an actual C reader (the reference is the SMT specification); export_c_header text; big-endian hosts",
 }
 EXPECT_LABELS = {"quick": ["bloom-writer-agrees", "bloom-reader-agrees", "bloom-length", "cbf-writer-agrees", "cbf-reader-agrees",
-                           "cms-writer-agrees", "cms-reader-agrees", "exp-layout", "cuckoo-layout", "ccuckoo-layout"]}
+                           "cms-writer-agrees", "cms-reader-agrees", "exp-layout", "cuckoo-layout", "ccuckoo-layout", "geometry-is-what-a-reader-derives"]}
 
 
 def _bits_of_bytes(ctx, bytes_):
